@@ -242,7 +242,8 @@ RECURSIVE DivideSeq(_, _, _)
 DivideSeq(D, h, es) ==
     IF es = << >> THEN h ELSE DivideSeq(D, DivideOne(D, h, Head(es)), Tail(es))
 
-DivideRounds(D, h) == DivideSeq(D, h, h.undet)
+\* (only the events that have no round yet; DivideOne is a no-op for the others)
+DivideRounds(D, h) == DivideSeq(D, h, SelectSeq(h.undet, LAMBDA e : h.E[e].rnd = -1))
 
 -----------------------------------------------------------------------------
 (* DecideFame                                                              *)
@@ -304,30 +305,49 @@ DecideFame(D, h) == DecideFameSet(D, h, DOMAIN h.pend)
 -----------------------------------------------------------------------------
 (* DecideRoundReceived                                                     *)
 
-RECURSIVE RRScan(_, _, _, _)
-RRScan(D, h, x, i) ==
-    IF i > h.lastRound \/ i \notin DOMAIN h.R THEN -1
+\* The first round above the lower bound at which every scan stops: missing,
+\* or not decided (rounds at or below the lower bound are skipped, not stops).
+FirstStop(h) ==
+    LET lo == h.lb + 1
+        stops == { i \in lo..(h.lastRound + 1) :
+                     \/ i > h.lastRound
+                     \/ i \notin DOMAIN h.R
+                     \/ ~RoundDecided(h.R[i], Cardinality(Members(h, i))) }
+    IN  MinOfSet(stops, h.lastRound + 1)
+
+\* the code's loop: i from round(x)+1; a missing round ends it; an undecided
+\* round ends it unless it is at or below the lower bound; the first decided
+\* round whose famous witnesses all see x (and are a super-majority) receives x
+RECURSIVE RRScan(_, _, _, _, _)
+RRScan(D, h, x, i, stop) ==
+    IF i >= stop /\ i > h.lb THEN -1
+    ELSE IF i > h.lastRound \/ i \notin DOMAIN h.R THEN -1
     ELSE
     LET Ri == h.R[i]
         n  == Cardinality(Members(h, i))
-    IN  IF ~RoundDecided(Ri, n)
-        THEN IF h.lb = -1 \/ h.lb < i THEN -1 ELSE RRScan(D, h, x, i + 1)
+    IN  IF i <= h.lb /\ ~RoundDecided(Ri, n) THEN RRScan(D, h, x, i + 1, stop)
         ELSE LET fws == FamousOf(Ri) IN
              IF (\A w \in fws : See(D, h.E, w, x)) /\ Cardinality(fws) >= SuperMajority(n)
              THEN i
-             ELSE RRScan(D, h, x, i + 1)
+             ELSE RRScan(D, h, x, i + 1, stop)
 
-RECURSIVE DecideRRSeq(_, _, _, _)
-DecideRRSeq(D, h, es, keep) ==
-    IF es = << >> THEN [ h EXCEPT !.undet = keep ]
+\* The scan of one event does not depend on what the pass assigns to others
+\* (only on rounds, fame and coordinates), so the pass is: scan every
+\* undetermined event, then record the received ones in queue order.
+RECURSIVE RecordReceived(_, _, _)
+RecordReceived(h, es, rrs) ==
+    IF es = << >> THEN h
     ELSE LET x == Head(es)
-             i == RRScan(D, h, x, h.E[x].rnd + 1)
-         IN  IF i = -1 THEN DecideRRSeq(D, h, Tail(es), Append(keep, x))
-             ELSE DecideRRSeq(D,
-                     [ h EXCEPT !.E[x].rr = i, !.R[i].rcv = Append(@, x) ],
-                     Tail(es), keep)
+             i == rrs[x]
+         IN  RecordReceived([ h EXCEPT !.E[x].rr = i, !.R[i].rcv = Append(@, x) ], Tail(es), rrs)
 
-DecideRoundReceived(D, h) == DecideRRSeq(D, h, h.undet, << >>)
+DecideRoundReceived(D, h) ==
+    LET stop == FirstStop(h)
+        rrs == Strict([ x \in Range(h.undet) |-> RRScan(D, h, x, h.E[x].rnd + 1, stop) ])
+        got == SelectSeq(h.undet, LAMBDA x : rrs[x] # -1)
+        keep == SelectSeq(h.undet, LAMBDA x : rrs[x] = -1)
+    IN  IF got = << >> THEN h
+        ELSE [ RecordReceived(h, got, rrs) EXCEPT !.undet = keep ]
 
 -----------------------------------------------------------------------------
 (* Frames, roots, blocks                                                   *)
